@@ -1,6 +1,7 @@
 import RedisVerif.Driver.Codec
 import RedisVerif.Model.GrammarTable
 import RedisVerif.Model.LuaConv
+import RedisVerif.Model.LuaScript
 import RedisVerif.Props.C16
 
 /-
@@ -18,11 +19,18 @@ import RedisVerif.Props.C16
     TN                → the command names of `table`, sorted (compared with the match arms of the source)
     LT <i>            → row i of the translator's error alphabet `C16.luaErrTable` (name, arity text,
                         error literals, prefixes of formatted errors) | end
+    SC <n> <hex-arg>*n <k> {c|p} <m> <aexpr>*m … R <ret> D <d>*k
+                      → `execute_lua_script` on a script of k call statements: the EVAL frame (its KEYS / ARGV reach
+                        the script through `parseCmd` + `envOfEval`), the statements (c = redis.call, p = redis.pcall;
+                        aexpr = K<i> | A<i> | <lua>), the return expression (r<i> | T<n> e1 … en | L <lua>) and, per
+                        statement, the reply the CLIENT path gave for the same words (`-` = none): the executor is a
+                        parameter of the model, here it replays these replies.
+                        completed=<statements completed> reply=<resp> | crash
   RESP values (prefix notation):  +<hex>  -<hex>  :<int>  $<hex>  $-  *-  *<n> v1 … vn
   Lua values:                     nil true false i<int> n<int> s<hex> ok<hex> err<hex> t<n> v1 … vn
 -/
 namespace RedisVerif.Driver.C16
-open RedisVerif RedisVerif.Driver RedisVerif.Grammar RedisVerif.LuaConv
+open RedisVerif RedisVerif.Driver RedisVerif.Grammar RedisVerif.LuaConv RedisVerif.LuaScript
 
 def strOf (b : List Nat) : String := String.ofList (b.map Char.ofNat)
 
@@ -126,6 +134,106 @@ partial def showLua : LuaVal → String
   | .other => "other"
 end
 
+/-! ### scripts -/
+
+def aexprP (fuel : Nat) : P AExpr := do
+  match (← get) with
+  | [] => failure
+  | t :: ts =>
+    match t.toList with
+    | 'K' :: cs => match (String.ofList cs).toNat? with
+      | some i => do set ts; pure (.key i)
+      | none => failure
+    | 'A' :: cs => match (String.ofList cs).toNat? with
+      | some i => do set ts; pure (.argv i)
+      | none => failure
+    | _ => do
+      let v ← luaP fuel
+      pure (.lit v)
+
+def callP (fuel : Nat) : P Call := do
+  let f ← tok
+  let prot ← (match f with
+    | "c" => pure false
+    | "p" => pure true
+    | _ => failure : P Bool)
+  let m ← nat
+  let args ← repeatP m (aexprP fuel)
+  pure ⟨prot, args⟩
+
+def retP : Nat → P Ret
+  | 0 => failure
+  | fuel + 1 => do
+    let t ← tok
+    match t.toList with
+    | 'r' :: cs => match (String.ofList cs).toNat? with
+      | some i => pure (.res i)
+      | none => failure
+    | 'T' :: cs => match (String.ofList cs).toNat? with
+      | some n => do
+        let xs ← repeatP n (retP fuel)
+        pure (.tbl xs)
+      | none => failure
+    | ['L'] => do
+      let v ← luaP fuel
+      pure (.lit v)
+    | _ => failure
+
+def optRespP (fuel : Nat) : P (Option Resp) := do
+  match (← get) with
+  | "-" :: ts => do set ts; pure none
+  | _ => do
+    let r ← respP fuel
+    pure (some r)
+
+structure ScriptOp where
+  frame : List (List Nat)
+  script : Script
+  direct : List (Option Resp)
+
+def scriptOpP (fuel : Nat) : P ScriptOp := do
+  let n ← nat
+  let frame ← repeatP n bytesTok
+  let k ← nat
+  let calls ← repeatP k (callP fuel)
+  let r ← tok
+  if r != "R" then failure
+  let ret ← retP fuel
+  let d ← tok
+  if d != "D" then failure
+  let ds ← repeatP k (optRespP fuel)
+  pure ⟨frame, ⟨calls, ret⟩, ds⟩
+
+/-- the executor of the `SC` op: it answers the replies the client path gave, in order -/
+def replayExec (ds : List Resp) (_ : Cmd) : List Resp × Resp :=
+  match ds with
+  | d :: t => (t, d)
+  | [] => ([], .error (s2b "missing-direct-reply"))
+
+/-- the replies the model's run will ask for: one per statement whose words the translator accepts -/
+def alignReplies (env : Env) : List Call → List (Option Resp) → List Resp
+  | c :: cs, d :: ds =>
+    match c.words env with
+    | some (w :: ws) =>
+      match parseLua (w :: ws) with
+      | .ok _ => (d.getD (.error (s2b "missing-direct-reply"))) :: alignReplies env cs ds
+      | .error _ => alignReplies env cs ds
+    | _ => alignReplies env cs ds
+  | _, _ => []
+
+def runScriptOp (o : ScriptOp) : String :=
+  match parseCmd o.frame with
+  | .ok c =>
+    match envOfEval c with
+    | some env =>
+      let ds := alignReplies env o.script.calls o.direct
+      let r := runCalls replayExec env ds o.script.calls
+      match (evalScript replayExec env ds o.script).2 with
+      | some reply => s!"completed={r.results.length} reply={showResp reply}"
+      | none => "crash"
+    | none => "not-an-eval"
+  | .error e => "frame-rejected " ++ showErr e
+
 def step (line : String) : String :=
   match tokens line with
   | "P" :: ts => match hexArgs ts with
@@ -161,6 +269,9 @@ def step (line : String) : String :=
     | some (v, []) => match luaArgBytes v with
       | some b => "$" ++ hexOfBytes b
       | none => "refused"
+    | _ => "bad-op"
+  | "SC" :: ts => match (scriptOpP (ts.length + 1)).run ts with
+    | some (o, []) => runScriptOp o
     | _ => "bad-op"
   | ["TN"] =>
     let names := (table.map Entry.name).map strOf
